@@ -86,6 +86,7 @@ def native_env(api):
     for name, p in api.PRIMS.items():
         if p.native is not None:
             env[name] = p.native
+    env['is_prefix'] = lambda a, b: list(b[:len(a)]) == list(a)
     env['implies'] = implies
     env['val'] = val
     env['orelse'] = orelse
